@@ -90,3 +90,38 @@ def run_forked(fn, timeout=120, faultlog_dir=None):
         info['status'] = 'ok'
     info['result'] = payload.get('result')
     return info
+
+
+def run_case_forked(env, case, inner, timeout=180, what='case'):
+    """Run inner(case, env) -> Result in a forked child and rebuild the Result in the parent.  A child that dies
+    from a signal is a finding (mechanism child-killed-by-signal:<SIG>), not an accident of the harness."""
+    from .common import Result
+
+    def child():
+        r = inner(case, env)
+        sig = sorted(r.sig) if isinstance(r.sig, (set, frozenset)) else r.sig
+        return {'sig': sig, 'sigset': isinstance(r.sig, (set, frozenset)), 'nontrivial': r.nontrivial, 'fails': r.fails,
+                'counts': dict(r.counts), 'dims': {k: sorted(v, key=str) for k, v in r.dims.items()}, 'evals': r.evals,
+                'reach': sorted(env.reach)}
+
+    info = run_forked(child, timeout=timeout, faultlog_dir=str(env.scratch.root))
+    res = Result()
+    res.count('mon.child_status')
+    res.count(f'child.{info["status"]}')
+    if info['status'] == 'ok':
+        r = info['result']
+        env.reach.update(r['reach'])
+        res.sig = set(r['sig']) if r['sigset'] else r['sig']
+        res.nontrivial = r['nontrivial']
+        res.fails = r['fails']
+        res.counts.update(r['counts'])
+        res.dims = {k: set(v) for k, v in r['dims'].items()}
+        res.evals = r['evals']
+    elif info['status'] == 'signal':
+        res.fail(f'child-killed-by-signal:{info.get("signame")}',
+                 f'{what} killed the interpreter with {info.get("signame")}: {info["trace"][-1200:]}', case=case)
+    elif info['status'] == 'timeout':
+        raise RuntimeError(f'child timed out on {what} (inconclusive)')
+    else:
+        raise RuntimeError(f'child failed: {info["trace"][-1500:]}')
+    return res
